@@ -33,7 +33,7 @@ META = {
                    '(1 / True / 1.0 / "1", tuple vs list, nested differences, other alias parameters, static vs instance).  Every canonical '
                    'call records a unique token; replay in the same process and in a fresh interpreter started with another PYTHONHASHSEED '
                    '(file cassette as durable state) must hand each call exactly its own token, and the recording must hold one key per '
-                   'canonical call.'),
+                   'canonical call. Aliases resolved from the call\'s own arguments (positional / keyword / defaulted, excluded from capture), the same input called from two threads, and a replay whose threads look keys up at the same time.'),
     'level_note': 'Trusted: structural canonical form simkit.values.canon (types included) as the definition of "same call"; generator determinism across hash seeds (self-tested). Calling convention (positional vs keyword) is treated as part of the call.',
     'rule': ('evaluation = one generated service (2-4 inputs, 3-10 distinct canonical calls each) recorded once and replayed with re-spelt '
              'arguments, in-process or across two interpreters with different hash seeds; non-trivial = at least one call was re-spelt '
